@@ -11,7 +11,7 @@ from __future__ import annotations
 import ast
 
 from ..core.cfg import CFG, ENTRY, EXIT
-from ..core.terms import (c, evaluate, fn_name, kw, make_inliner, n, pretty, subterms)
+from ..core.terms import (cmp_, not_, pc, phi_, c, evaluate, fn_name, kw, make_inliner, n, pretty, subterms)
 from .common import LIB_FACTS, is_call, method, short
 
 NODE = "liesel.model.nodes.Node"
@@ -278,7 +278,7 @@ def check(ctx):
     node_t = ("iter", ("a", SELF, "_sorted_nodes"))
     ucalls = [(t, cond) for t, _, cond in ru.calls if t[1] == ("a", node_t, "update")]
     full = [x for x in ucalls if (n("names"), False) in _atoms(x[1])
-            or (("u", "not", n("names")), True) in x[1]]
+            or (n("names"), False) in x[1]]
     targ = [x for x in ucalls if x not in full]
     ok_full = False
     if len(full) == 1:
